@@ -177,6 +177,7 @@ PROPS["C12"] = {
     "level": "exploration",
     "units": [
         {"name": "c12-invitations-descriptors", "pkg": ROOT, "run": "TestVerifC12", "timeout": {"quick": 600, "thorough": 2400}},
+        {"name": "c12-identity-under-faults", "pkg": SECRETSTORE, "run": "TestVerifC12Faults", "timeout": {"quick": 600, "thorough": 1200}},
     ],
 }
 PROPS["C19"] = {
